@@ -35,8 +35,9 @@ pub enum Tail {
 
 #[derive(Clone, Debug, Serialize, Deserialize)]
 pub enum C10Plan {
-    /// the source ends after `cut` bytes of the frame
-    Truncate { frame: FrameSpec, cut: usize, program: Program },
+    /// the source ends after `cut` bytes of the frame; `before` (if any) is a frame decoded completely on the same
+    /// decoder first (the truncated frame then meets a reused decoder)
+    Truncate { frame: FrameSpec, cut: usize, program: Program, #[serde(default)] before: Option<FrameSpec> },
     /// decode_all / decode_all_to_vec over a concatenation; target size = total content + delta
     Multi { items: Vec<Item>, tail: Tail, delta: i64, to_vec: bool, prefix: usize },
     /// a frame followed by another frame / bytes: exactly the frame's bytes are consumed
@@ -126,6 +127,18 @@ fn gen_item(r: &mut Rng, prof: &GenProfile) -> Item {
     }
 }
 
+/// optional history for a truncation run: a small complete frame decoded first on the same decoder (half of them with
+/// a checksum, so that a stale stored checksum could make a later checksummed prefix look finished)
+fn gen_before(r: &mut Rng, tier: Tier) -> Option<FrameSpec> {
+    if !r.chance(1, 3) {
+        return None;
+    }
+    let mut p = GenProfile::standard(4 * 1024);
+    p.max_corpus_frame = 8 * 1024;
+    let _ = tier;
+    Some(pool_spec(2_000_000 + r.below(40), &p))
+}
+
 fn gen_front_program(r: &mut Rng, f: &Frame, allow_oneshot: bool) -> Program {
     let window = f.window().min(1 << 24) as usize;
     let mut fronts = vec![FrontEnd::Reader, FrontEnd::Reader, FrontEnd::Slice, FrontEnd::StreamOwned, FrontEnd::StreamBorrowed];
@@ -182,7 +195,8 @@ impl Engine for C10 {
             let f = get_frame(&spec).expect("table frame builds");
             let mut program = gen_front_program(&mut r, &f, cut > 0);
             program.source.eof_at = Some(cut as u64);
-            return C10Plan::Truncate { frame: spec, cut, program };
+            let before = gen_before(&mut r, tier);
+            return C10Plan::Truncate { frame: spec, cut, program, before };
         }
         let prof = GenProfile::standard(32 * 1024);
         match r.below(10) {
@@ -203,7 +217,8 @@ impl Engine for C10 {
                         };
                         let mut program = gen_front_program(&mut r, &f, cut > 0);
                         program.source.eof_at = Some(cut as u64);
-                        C10Plan::Truncate { frame: spec, cut, program }
+                        let before = gen_before(&mut r, tier);
+                        C10Plan::Truncate { frame: spec, cut, program, before }
                     }
                     Err(_) => C10Plan::Multi { items: vec![], tail: Tail::None, delta: 0, to_vec: false, prefix: 0 },
                 }
@@ -265,14 +280,33 @@ impl Engine for C10 {
 
     fn exec(&self, plan: &C10Plan, stats: &mut Stats, log: Option<&mut Vec<Value>>) -> Result<RunOutcome, HarnessError> {
         match plan {
-            C10Plan::Truncate { frame, cut, program } => {
+            C10Plan::Truncate { frame, cut, program, before } => {
                 let f = get_frame(frame)?;
                 if *cut >= f.bytes.len() {
                     return Err(HarnessError(format!("cut {cut} is not a strict prefix of a {}-byte frame", f.bytes.len())));
                 }
                 let mut dec = FrameDecoder::new();
+                if let Some(b) = before {
+                    // history: a complete frame on the same decoder (driven to completion and drained)
+                    let bf = get_frame(b)?;
+                    let prog = Program { front: FrontEnd::Reader, ops: vec![Op::Decode(Strat::All)], source: SourceScript::plain(), finisher: true, explicit_init: true, target: 0, prefix: 0 };
+                    let t0 = run_frame(&mut dec, &bf.bytes, &prog, Some(bf.nblocks()), &Limits::default());
+                    if t0.delivered != bf.data {
+                        return Err(HarnessError("history frame did not decode (C06's business); run skipped".into()));
+                    }
+                    stats.inc("probe.truncated_frame_on_reused_decoder");
+                    if bf.info.header.checksum && f.info.header.checksum {
+                        stats.inc("probe.reused_decoder_both_frames_checksummed");
+                    }
+                }
                 // reader front ends see the whole frame through a reader that hits EOF at `cut`; slice / one-shot
                 // front ends get the truncated slice
+                // (a reused decoder needs an explicit init on the slice front end)
+                let mut program = program.clone();
+                if before.is_some() {
+                    program.explicit_init = true;
+                }
+                let program = &program;
                 let t = match program.front {
                     FrontEnd::Reader | FrontEnd::StreamOwned | FrontEnd::StreamBorrowed => run_frame(&mut dec, &f.bytes, program, Some(f.nblocks()), &Limits::default()),
                     _ => {
@@ -408,11 +442,14 @@ impl Engine for C10 {
     fn shrink(&self, plan: &C10Plan) -> Vec<C10Plan> {
         let mut out = Vec::new();
         match plan {
-            C10Plan::Truncate { frame, cut, program } => {
+            C10Plan::Truncate { frame, cut, program, before } => {
+                if before.is_some() {
+                    out.push(C10Plan::Truncate { frame: frame.clone(), cut: *cut, program: program.clone(), before: None });
+                }
                 for p in shrink_program(program) {
                     let mut p = p;
                     p.source.eof_at = Some(*cut as u64);
-                    out.push(C10Plan::Truncate { frame: frame.clone(), cut: *cut, program: p });
+                    out.push(C10Plan::Truncate { frame: frame.clone(), cut: *cut, program: p, before: before.clone() });
                 }
             }
             C10Plan::Exact { frame, next, program } => {
@@ -471,6 +508,8 @@ impl Engine for C10 {
             "probe.cut_at_structural_boundary",
             "probe.cut_inside_checksum",
             "probe.cut_inside_header",
+            "probe.truncated_frame_on_reused_decoder",
+            "probe.reused_decoder_both_frames_checksummed",
             "fault.truncated_skippable_frame",
             "fault.cut_skippable_header",
             "fault.trailing_garbage",
